@@ -392,6 +392,7 @@ func (f *FnEnc) execInstr(ins ssa.Instruction) bool {
 		m := f.term(v.Map)
 		f.safety("nilmap", tNot(tEq(m, tInt(0))), v.Pos(), "")
 		mt := v.Map.Type().Underlying().(*types.Map)
+		f.checkAts(ins, "")
 		f.mapStore(mt, m, f.term(v.Key), f.val(v.Value))
 		return false
 
